@@ -1,2 +1,28 @@
-(* Props/C08.v — placeholder, theorems added below in a later commit *)
-From NIR Require Import Model.Graph.
+(* Props/C08.v — Type inference reconstructs exactly the erased shape annotations.
+   (interim: the recomputation functions of the loop are the shape functions of the primitives; the loop-level
+   restoration theorem from Proofs/RestoreProofs.v is added when that library is complete) *)
+From NIR Require Import Model.Graph Proofs.ShapesProofs Proofs.NodesProofs Proofs.InferProofs.
+
+(* an erased Flatten is recomputed to the merge of its input shape *)
+Theorem c08_flatten_recomputed : forall (sh : list Z) (s e : Z) fs pre,
+  fld "start_dim" fs = Ok (VInt s) -> fld "end_dim" fs = Ok (VInt e) -> valid_dims sh s e ->
+  derive_output KFlatten fs pre [("input", TArr sh)] = (fs, Some [("output", TArr (flatten_out sh s e))], None).
+Proof. exact flatten_infer. Qed.
+
+(* a pooling node is recomputed with the convolution arithmetic (dilation 1), channel copied *)
+Theorem c08_pool_recomputed : forall (k : kind) fs (c : Z) (sp out : list Z) (ks stride pad : pval),
+  k = KSumPool2d \/ k = KAvgPool2d ->
+  fld "kernel_size" fs = Ok ks -> fld "stride" fs = Ok stride -> fld "padding" fs = Ok pad ->
+  conv_out (HArr sp) (hp_of pad) (HInt 1) (hp_of ks) (hp_of stride) = Ok out ->
+  derive_output k fs [("output", TArr (c :: sp))] [("input", TArr (c :: sp))] =
+  (fs, Some [("output", TArr (c :: out))], None).
+Proof. exact pool_infer. Qed.
+
+(* the loop always terminates within the model's fuel, on every topology *)
+Theorem c08_loop_terminates : forall ch es,
+  snd (run (infer_fuel ch es) es (init_state ch es)) <> Raised OutOfFuel.
+Proof. exact infer_fuel_suffices. Qed.
+
+Print Assumptions c08_flatten_recomputed.
+Print Assumptions c08_pool_recomputed.
+Print Assumptions c08_loop_terminates.
